@@ -1,7 +1,7 @@
 (* C02 - compile-time constant arithmetic is exact and matches the Go specification.
    Only statements, `exact`, and Print Assumptions live here. *)
 From Coq Require Import ZArith List Bool QArith Qabs.
-From Verif Require Import Facts_consts ConstsM ConstEvalM Consts_proofs Consts_proofs2 Consts_proofs3 Consts_proofs4 Round_core Round_proofs Round_spec Round_arith.
+From Verif Require Import Facts_consts ConstsM ConstEvalM Consts_proofs Consts_proofs2 Consts_proofs3 Consts_proofs4 Round_core Round_proofs Round_spec Round_arith Round_det.
 Open Scope Z_scope.
 
 (* ---- the full statement, over the model of constant.go: every arithmetic
@@ -342,7 +342,8 @@ Proof. exact (conj rounds_to_monotone (conj rounds_to_exact rounds_to_idempotent
 Print Assumptions C02_rounding_laws.
 
 (* ---- round_fl, round_Z, round_rat (through quo_bits): floats, integers and
-   rationals n / d rounded to a format, once *)
+   rationals n / d rounded to a format, once; rounding of floats is monotone
+   and depends on the value only, not on the representation m * 2^e *)
 Theorem C02_round_functions :
   (forall f x r, 0 < f_prec f -> round_fl f x = Some r ->
      rounds_to (f_prec f) (f_emin f) (flQ x) (flQ r)) /\
@@ -351,13 +352,15 @@ Theorem C02_round_functions :
   (forall f n d r, 0 < f_prec f -> round_rat f n d = Some r ->
      rounds_to (f_prec f) (f_emin f) (n # d) (flQ r)) /\
   (forall f x1 x2 r1 r2, 0 < f_prec f ->
-     round_fl f x1 = Some r1 -> round_fl f x2 = Some r2 -> (flQ x1 < flQ x2)%Q -> (flQ r1 <= flQ r2)%Q) /\
+     round_fl f x1 = Some r1 -> round_fl f x2 = Some r2 -> (flQ x1 <= flQ x2)%Q -> (flQ r1 <= flQ r2)%Q) /\
+  (forall f x1 x2 r1 r2, 0 < f_prec f ->
+     round_fl f x1 = Some r1 -> round_fl f x2 = Some r2 -> (flQ x1 == flQ x2)%Q -> (flQ r1 == flQ r2)%Q) /\
   (forall f n1 d1 n2 d2 r1 r2, 0 < f_prec f ->
      round_rat f n1 d1 = Some r1 -> round_rat f n2 d2 = Some r2 -> (n1 # d1 < n2 # d2)%Q -> (flQ r1 <= flQ r2)%Q) /\
   (forall f x r r', 0 < f_prec f -> round_fl f x = Some r -> round_fl f r = Some r' -> (flQ r' == flQ r)%Q).
 Proof.
   exact (conj round_fl_rounds (conj round_Z_rounds (conj round_rat_rounds
-        (conj round_fl_monotone (conj round_rat_monotone round_fl_idempotent))))).
+        (conj round_fl_monotone_le (conj round_fl_value_det (conj round_rat_monotone round_fl_idempotent)))))).
 Qed.
 Print Assumptions C02_round_functions.
 
